@@ -8,8 +8,9 @@
 (* array layout.  Remove is nondeterministic among extremal elements, so   *)
 (* every admissible tie-break is a behaviour of this spec.                 *)
 (*                                                                         *)
-(* Domain (C05's hypothesis): Insert of never-queued elements, Update of   *)
-(* a never-queued element or of a queued element with a cost at least as   *)
+(* Domain (C05's hypothesis): Insert of elements that are not queued       *)
+(* (never queued, or returned and inserted again), Update of a             *)
+(* never-queued element or of a queued element with a cost at least as     *)
 (* good (in the policy's direction) as its current one, SetKey (the        *)
 (* models' `h.cost[i] = v`) of an element that is not queued.              *)
 (***************************************************************************)
@@ -36,8 +37,9 @@ SetKey(e, c) == /\ color[e] # "G"
                 /\ key' = [key EXCEPT ![e] = c]
                 /\ UNCHANGED color
 
-\* insert(e) of a never-queued element into a heap with room: TRUE, e becomes queued
-Insert(e) == /\ color[e] = "W"
+\* insert(e) of an element that is not queued (never queued, or returned before: the code re-admits it, a drained heap can be
+\* refilled) into a heap with room: TRUE, e becomes queued
+Insert(e) == /\ color[e] # "G"
              /\ ~IsFull
              /\ color' = [color EXCEPT ![e] = "G"]
              /\ UNCHANGED key
@@ -69,9 +71,11 @@ Spec == Init /\ [][Next]_pqvars
 (***************************************************************************)
 (* Properties of the abstract queue itself (checked by TLC on PQ.cfg).     *)
 (***************************************************************************)
-\* an element is returned at most once: B is absorbing, G is entered only from W
-AtMostOnce == [][\A e \in Elem : /\ color[e] = "B" => color'[e] = "B"
-                                 /\ (color[e] # "G" /\ color'[e] = "G") => color[e] = "W"]_pqvars
+\* an element is returned once per insertion: a returned element leaves B only by being inserted again (with room, key untouched),
+\* and never goes back to W
+AtMostOnce == [][\A e \in Elem : /\ color[e] = "B" => color'[e] \in {"B", "G"}
+                                 /\ (color[e] = "B" /\ color'[e] = "G") => (~IsFull /\ key' = key)
+                                 /\ color'[e] = "W" => color[e] = "W"]_pqvars
 \* a queued element stays queued until it is returned (nothing is lost)
 NothingLost == [][\A e \in Elem : color[e] = "G" => color'[e] \in {"G", "B"}]_pqvars
 \* a queued element's key only improves
